@@ -560,10 +560,117 @@ func c08tGen(r *Rand, tier string) []string {
 		}
 		add(c)
 	}
+	// zone abbreviations in the parsed text (GMT±h, the location's own, unknown ones)
+	out = append(out, c08tAbbrGen(r, tier, layoutOf)...)
 	return out
 }
 
-var c08tDurHand = []string{"24h", "1h30m", "90s", "1.5h", "1e3s", "", "0", "-0", "+0", "+5s", "5", "5 s", " 5s", "5s ", "1h-5m", "9223372036s", "9223372037s", "-9223372037s",
+// ---------------------------------------------------------------- zone abbreviations in the parsed text
+
+// layouts with an `MST` token (the last ones carry a numeric offset too: the offset wins over the name)
+var c08tAbbrLayouts = []string{"RFC1123", "RFC822", "UNIX", "rfc1123", "Monday, 02-Jan-06 15:04:05 MST", "2006-01-02 15:04:05 MST", "MST 2006-01-02 15:04",
+	"Mon Jan 2 15:04:05 MST 2006", "2006-01-02 15:04:05 -0700 MST", "2006-01-02T15:04:05Z07:00 MST", "2006-01-02 15:04:05.000 MST"}
+
+// abbreviations no location knows, the `GMT±h` fall-back of time.parse at and beyond its ends (parseGMT accepts
+// 0..23 hours, any number of digits), abbreviations of the usual zones, the shapes parseTimeZone accepts (3, 4 or
+// 5 letters, `ChST`, `MeST`, `±hh`) and does not.  (A `GMT+` number of MORE than 19 digits with leading zeros, which
+// Go accepts - leadingInt overflows by value, not by length -, is answered <PARSE-ERROR> by `Rare.C18.parseSignedOffset`
+// (C18's file, reported): `GMT+0000000000000000000007` joins the list when that is repaired.)
+var c08tAbbrs = []string{"GMT", "UTC", "GMT+0", "GMT-0", "GMT+1", "GMT-1", "GMT+3", "GMT-3", "GMT+9", "GMT+10", "GMT-11", "GMT+12", "GMT-12", "GMT+14", "GMT+23", "GMT-23",
+	"GMT+24", "GMT-24", "GMT+25", "GMT+99", "GMT+03", "GMT-003", "GMT+0000000000000000007", "GMT+", "GMT-", "GMT+x", "GMT+3x", "GMT+5:30", "GMT +3", "gmt+3", "UTC+3", "UTC-3", "UT", "Z",
+	"EST", "EDT", "CET", "CEST", "BST", "IST", "MSK", "JST", "AEST", "AEDT", "NZDT", "NST", "NDT", "LMT", "WET", "WEST", "EWT", "EPT", "PST", "PDT", "ChST", "MeST", "WITA", "ABCD", "ABCDE", "ABCDEF",
+	"AB", "abc", "Est", "+03", "-03", "+0330", "-0330", "+0545", "+1030", "+11", "+13", "-05", "+14", "+00", "-00", "+0", "", "MST", "XYZ"}
+
+// c08tAbbrText: the instant u shown in z with the layout of format argument f, the zone abbreviation replaced
+func c08tAbbrText(f string, layoutOf func(string) string, u int64, z c08tZone, abbr string) string {
+	layout := layoutOf(f)
+	t := time.Unix(u, 0).In(z.loc)
+	i := strings.Index(layout, "MST")
+	if i < 0 {
+		return t.Format(layout) + " " + abbr
+	}
+	return t.Format(layout[:i]) + abbr + t.Format(layout[i+3:])
+}
+
+// c08tAbbrGen: {time} / {buckettime} (and what {timeformat} shows of it) on texts whose zone is an ABBREVIATION:
+// one the location knows (at that instant, at another instant, never), `GMT±h` (Go fabricates a zone of that
+// offset but does NOT shift the instant: the wall clock is read as UTC), unknown ones (offset 0, not shifted).
+func c08tAbbrGen(r *Rand, tier string, layoutOf func(string) string) []string {
+	var out []string
+	emit := func(c *c08tCase) { out = append(out, c.line(r)) }
+	mk := func(z c08tZone, u int64, f, abbr string, kind int) {
+		c := c08tNew()
+		_, off := time.Unix(u, 0).In(z.loc).Zone()
+		// the parser reads the wall clock as UTC first (lookupName around it), then shifts by a zone's offset
+		c.instants = []int64{u, u + int64(off), u + 2*int64(off)}
+		s := c08tAbbrText(f, layoutOf, u, z, abbr)
+		c.strs = []string{s}
+		switch kind {
+		case 0:
+			c.tmpl = "{time " + c.arg(r, s, false) + " " + c.arg(r, f, true) + " " + c.zone(r, z, true) + "}"
+		case 1:
+			c.tmpl = "{buckettime " + c.arg(r, s, false) + " " + Pick(r, []string{"hour", "seconds", "day", "min", "nanos"}) + " " + c.arg(r, f, true) + " " + c.zone(r, z, true) + "}"
+		default:
+			z2 := c08tValidZone(r)
+			c.tmpl = "{timeformat {time " + c.arg(r, s, false) + " " + c.arg(r, f, true) + " " + c.zone(r, z, true) + "} \"2006-01-02 15:04:05 -0700 MST\" " + c.zone(r, z2, true) + "}"
+		}
+		emit(c)
+	}
+	utc := c08tLoad("")
+	// every GMT±h at one fixed wall clock (the witness of the repaired model slip is h = +3 in UTC)
+	sysZones := []c08tZone{utc, c08tLoad("America/New_York"), c08tLoad("Europe/London")}
+	if tier == "thorough" {
+		sysZones = nil
+		for _, n := range c08tZoneNames {
+			if z := c08tLoad(n); z.ok {
+				sysZones = append(sysZones, z)
+			}
+		}
+	}
+	for _, z := range sysZones {
+		for h := -25; h <= 25; h++ {
+			if tier != "thorough" && z != utc && h%3 != 0 {
+				continue
+			}
+			mk(z, 1460653945, "RFC1123", fmt.Sprintf("GMT%+d", h), (h+25)%3)
+		}
+	}
+	n := 220
+	if tier == "thorough" {
+		n = 9000
+	}
+	for i := 0; i < n; i++ {
+		z := c08tValidZone(r)
+		u := c08tInstant(r, z)
+		if u < -62135596800 || u > 253402300799 { // four-digit years: the text must parse for the abbreviation to matter
+			u = int64(r.U64() % 4102444800)
+		}
+		f := Pick(r, c08tAbbrLayouts)
+		var abbr string
+		switch k := r.Intn(10); {
+		case k < 4: // GMT±h, dense at the ends of parseGMT's range
+			h := r.Range(-25, 25)
+			abbr = fmt.Sprintf("GMT%+d", h)
+			if r.Chance(1, 8) {
+				abbr = fmt.Sprintf("GMT%+03d", h)
+			}
+		case k < 6: // an abbreviation of the location itself (any period of it, the current one included)
+			names := strings.Split(c08tZoneList(z.loc), "|")
+			e := Pick(r, names)
+			if j := strings.IndexByte(e, ':'); j > 0 {
+				abbr = string(UnHex(e[:j]))
+			} else {
+				abbr = "UTC"
+			}
+		default:
+			abbr = Pick(r, c08tAbbrs)
+		}
+		mk(z, u, f, abbr, r.Intn(3))
+	}
+	return out
+}
+
+var c08tDurHand =[]string{"24h", "1h30m", "90s", "1.5h", "1e3s", "", "0", "-0", "+0", "+5s", "5", "5 s", " 5s", "5s ", "1h-5m", "9223372036s", "9223372037s", "-9223372037s",
 	"2562047h47m16s", "2562047h47m17s", "2562048h", "1000000000ns", "1500ms", "-1500ms", "999999999ns", "1000000µs", "1000000μs", "1000000us", "1µ", "1d", "1H", "h", ".s", "1.s", "1.0s", ".0s",
 	"1.000000000s", "0.5s", "1..s", "1s1", "00001s", "1h1h", "9223372036854775807ns", "9223372036854775808ns", "-9223372036854775808ns", "92233720368547758070ns", "4611686018427387904ns4611686018427387904ns",
 	"2097151999999999ns", "2097152999999999ns", "0s", "-0s", "+-1s", "1ss", "3600s", "-1m30s"}
@@ -623,6 +730,9 @@ func c08tStats(cases []string, st map[string]int) {
 				st["time."+name]++
 				break
 			}
+		}
+		if all := t + "\x00" + strings.Join(UnHexListS(f[4]), "\x00"); strings.Contains(all, "GMT+") || strings.Contains(all, "GMT-") {
+			st["time.gmt-offset-abbr"]++
 		}
 		st["timeworld.zone-records"] += strings.Count(f[1], "Z,") + strings.Count(f[1], "L,")
 		st["timeworld.dateparse-records"] += strings.Count(f[1], "D,")
